@@ -4,6 +4,7 @@ package c10
 
 import (
 	"fmt"
+	"strings"
 	"testing"
 
 	ucfg "github.com/elastic/go-ucfg"
@@ -38,7 +39,7 @@ type Case struct {
 var keys = []string{"a", "b", "sub", "l", "c", "a", "b"}
 var opNames = []string{"a", "b", "sub.a", "l.1.a", "a.b", "0.a", "sub", "l", "l.0", "c", "sub.l.1", "w.a", "w.sub.a", "r1"}
 
-const nEmbed = 9
+const nEmbed = 12
 
 func genCase(t *rapid.T) Case {
 	cfg := &gen.TreeCfg{Depth: 3, Width: 4, Keys: keys, NoFloat: true}
@@ -81,8 +82,16 @@ func embed(kind int, s *ucfg.Config) (interface{}, bool) {
 		return inlineHolder{s}, true
 	case 7:
 		return map[string]interface{}{"sub": map[string]*ucfg.Config{"a": s, "b": s}}, true
-	default:
+	case 8:
 		return map[interface{}]interface{}{"w": []interface{}{map[string]interface{}{"sub": s}}, "l": [2]*ucfg.Config{s, s}}, true
+	case 9:
+		// the same input defines a setting below the embedded config with a dotted key
+		return map[string]interface{}{"sub": s, "sub.zz": 1}, true
+	case 10:
+		return map[string]interface{}{"w": map[string]interface{}{"sub": s}, "w.sub.zz.q": true, "w.sub.l.5": "x"}, true
+	default:
+		// ... or an object that overlaps it
+		return map[string]interface{}{"sub": s, "sub.zz": map[string]interface{}{"n": 1}, "sub.a.zz": []int{1}}, true
 	}
 }
 
@@ -149,6 +158,13 @@ func runCase(c Case, r *runlog.R) error {
 	var D *ucfg.Config
 	if c.ViaNew {
 		if err := uc.Safe("NewFrom", func() (e error) { D, e = ucfg.NewFrom(in, mopts...); return }); err != nil {
+			if c.Embed >= 9 && !strings.Contains(err.Error(), "panicked") {
+				if e := src.unchanged(opts, "by a rejected NewFrom that embeds it"); e != nil {
+					return e
+				}
+				r.Class("merge rejected")
+				return nil
+			}
 			return fmt.Errorf("NewFrom(value embedding the source) failed: %v", err)
 		}
 	} else {
@@ -156,6 +172,15 @@ func runCase(c Case, r *runlog.R) error {
 			return fmt.Errorf("building the destination failed: %v", err)
 		}
 		if err := uc.Safe("Merge", func() error { return D.Merge(in, mopts...) }); err != nil {
+			if c.Embed >= 9 && !strings.Contains(err.Error(), "panicked") {
+				// the dotted sibling may collide with a setting of the source: the input is rejected, the source
+				// must be untouched all the same
+				if e := src.unchanged(opts, "by a rejected merge that embeds it"); e != nil {
+					return e
+				}
+				r.Class("merge rejected")
+				return nil
+			}
 			return fmt.Errorf("Merge failed: %v", err)
 		}
 	}
@@ -248,7 +273,7 @@ func readRefs(s *ucfg.Config, opts []ucfg.Option) string {
 
 var subMerge = runlog.Register(&runlog.Sub[Case]{
 	Name: "merge-independence",
-	Rule: "a source config (optionally with references to its own settings, optionally a child of a larger config) is merged from directly or embedded in a map, list (twice), struct field and slice, pointer to pointer, top-level list, inline field, typed map of configs, interface-keyed map with arrays; destination overlapping or created by NewFrom; all five policies; then 1-6 writes (SetInt, SetString with index, SetChild, Remove, append-merge, replace-merge) on either side. Oracle: stored tree of the source incl. names, parent links and addresses (hook fingerprint) identical before/after, Path/Parent/Unpack/own references unchanged; address sets of configs, field tables, maps and list backings disjoint; after every write the other side's fingerprint and Unpack are unchanged. Non-trivial: source embedded below the top level or merged over an overlapping destination, and at least one later write. Distinct: hash of the case.",
+	Rule: "a source config (optionally with references to its own settings, optionally a child of a larger config) is merged from directly or embedded in a map, list (twice), struct field and slice, pointer to pointer, top-level list, inline field, typed map of configs, interface-keyed map with arrays, and next to dotted keys of the same input that define settings below or overlapping the embedded config; destination overlapping or created by NewFrom; all five policies; then 1-6 writes (SetInt, SetString with index, SetChild, Remove, append-merge, replace-merge) on either side. Oracle: stored tree of the source incl. names, parent links and addresses (hook fingerprint) identical before/after, Path/Parent/Unpack/own references unchanged; address sets of configs, field tables, maps and list backings disjoint; after every write the other side's fingerprint and Unpack are unchanged. Non-trivial: source embedded below the top level or merged over an overlapping destination, and at least one later write. Distinct: hash of the case.",
 	Gen:  genCase,
 	Run:  runCase,
 })
